@@ -60,6 +60,7 @@ def main():
     S = Smtpd(rb)
     rng = ck.rng
     fails, mism = [], []
+    import gen_common; gen_common.translator_selfcheck(ck, rb, mism)
     EXITS = [0, 0, 0, 11, 31, 51, 53, 54, 61, 71, 81, 82, 91, 99, 115, 120, 20, 40, 41, 1, 255]
     # ================================================================ SMTP
     jobs = []
